@@ -286,7 +286,12 @@ def rule_order_preserving_evals(rep: Report, repo: Repo):
                 is_series = (isinstance(base, ast.Name) and (series_typed(base) or base.id in ("self", "packed", "op", "product")))
                 if not is_series:
                     continue
-                segs = segments(node.slice, index_name)
+                from .sem import Scope as _Scope, inline as _inline
+                sl = node.slice
+                sc_ = _Scope(repo.trees[mod], f if isinstance(f, ast.FunctionDef) else None)
+                if any(isinstance(c, ast.Call) and isinstance(c.func, ast.Name) and sc_.get(c.func.id) is not None for c in ast.walk(sl)):
+                    sl = _inline(sl, sc_)  # index helpers are expanded
+                segs = segments(sl, index_name)
                 cls = order_part(segs)
                 n_loads += 1
                 ok = cls in ("same", "lower")
